@@ -94,7 +94,7 @@ Value& MemberPUTExpression::value(Context& ctx) const
           if (a1.isNull())
             rv->at(p).deref_value().swap(Value(Value::type_integer));
           else
-            rv->at(p).deref_value().swap(Value(Integer(*a1.numeric())));
+            rv->at(p).deref_value().swap(Value(Value::toInteger(*a1.numeric())));
           return val;
         }
         else if (a1.type() == Type::NO_TYPE)
